@@ -16,6 +16,13 @@ CHECKS = {
             "every non-HTTP definition row, with random engine / gather / retry settings; plus a byte-wise truncation sweep and havoc fuzz. A "
             "panic, arithmetic overflow (overflow checks on), abort or exceeding the socket-operation bound is a violation.",
             "Exploration, not proof. Trusted: harness panic/abort observation, scripted transport. Eco (ureq HTTP) is exercised by C07/C12 only."),
+    "C12": ("fault_enumeration",
+            "Net.tla enumerates the fault scripts (protocol x IPv4/IPv6 x silent point x fault mode x retries) with the blocking-step bound B; "
+            "each is run against real loopback sockets (no hook) and compared with the scripted transport's account of the same scenario",
+            "76 (quick) / 114 (thorough) fault cases on real UDP/TCP loopback servers (127.0.0.1 and ::1) with 150 ms timeouts: the query must "
+            "return within B x timeout + 2 s with the error class the model gives; the requests the server saw must equal those the scripted "
+            "transport records (which validates the hook); payload sizes 0..65507 x requested sizes through the socket types directly.",
+            "Wall-clock measurement (2 s slack, never a lower bound); loopback only."),
     "C13": ("exploration",
             "same executions as C01 with a counting global allocator; Trace_Hostile.tla (TLC) enforces on every recorded execution: requests "
             "sent <= (r+1)*S + datagrams received, largest single allocation <= 16 MiB, live peak <= 64 MiB; SendsBounded model-checked on the exchange model",
@@ -128,6 +135,12 @@ CHECKS = {
             "longer packets and operation sequences are recorded from the real reader and validated by TLC against Trace_Buffer.tla, and the VarInt "
             "round trip is swept natively over 2^32 values (thorough) with the spec's encoder as oracle.",
             "Trusted: TLC, CommunityModules Json/IOUtils, the harness's primitive comparisons and the cfg-gated re-export of the crate-private reader."),
+    "C20": ("exploration",
+            "IdRules.tla enumerates every name shape of the documented grammar (TLC); the real checker is driven per shape and its verdict "
+            "histories are trace-validated by TLC against Trace_IdRules.tla (accepted <=> the id is one the checker itself reports)",
+            "6.8 k (quick) / 212 k (thorough) name shapes x random tokens: a wrong id elicits the expected ids, each of them must then be "
+            "accepted and near-miss ids rejected, independent of the wrong id used; lists of 1-4 games must not panic; the shipped table passes.",
+            "Names outside the documented grammar (a number hyphenated with a word) are not generated."),
 }
 
 NOT_YET = "check under construction in this session (claimed in DESIGN.md; registered as soon as it is sound)"
